@@ -76,14 +76,21 @@ Definition parse_reglist (x : text) : option Z :=
   | [] => None
   end.
 
-Definition check_mask (m : Z) : bool :=
-  match parse_reglist (fmt_reglist a32_reg m) with Some v => v =? m | None => false end.
+Definition chk (o : option Z) (m : Z) : bool := match o with Some v => v =? m | None => false end.
+Lemma chk_spec o m : chk o m = true -> o = Some m.
+Proof. destruct o as [v|]; cbn [chk]; [|discriminate]. intros E. apply Z.eqb_eq in E. subst. reflexivity. Qed.
+Definition check_mask (m : Z) : bool := chk (parse_reglist (fmt_reglist a32_reg m)) m.
 
 
-Fixpoint zrange (lo : Z) (n : nat) : list Z := match n with O => [] | S k => lo :: zrange (lo + 1) k end.
+Fixpoint zrange_from (lo : Z) (n : nat) : list Z := match n with O => [] | S k => lo :: zrange_from (lo + 1) k end.
+(* the bound is a Z (no unary literal anywhere in a statement) *)
+Definition zrange (lo n : Z) : list Z := zrange_from lo (Z.to_nat n).
 
-Lemma zrange_in : forall n lo m, lo <= m < lo + Z.of_nat n -> In m (zrange lo n).
+Lemma zrange_from_in : forall n lo m, lo <= m < lo + Z.of_nat n -> In m (zrange_from lo n).
 Proof.
-  induction n as [|k IH]; intros lo m H; [lia|]. cbn [zrange].
+  induction n as [|k IH]; intros lo m H; [lia|]. cbn [zrange_from].
   destruct (Z.eq_dec m lo) as [->|Hne]; [left; reflexivity|right]. apply IH. lia.
 Qed.
+
+Lemma zrange_in lo n m : 0 <= n -> lo <= m < lo + n -> In m (zrange lo n).
+Proof. intros Hn H. unfold zrange. apply zrange_from_in. rewrite Z2Nat.id by lia. exact H. Qed.
